@@ -10,6 +10,8 @@ def monitorLine (prop : String) (line : String) : String :=
     else if out == "bad-case" then "skip"
     else match prop with
       | "C04" => monitorC04 case out
+      | "C05" => monitorC05 case out
+      | "C10" => monitorC10 case out
       | _ => "skip"
   | _ => "bad-line"
 
